@@ -20,9 +20,11 @@ A *plan* is a JSON list of fault entries, fired in order (a chain):
 "after":  the call is performed (its effect on the database is real) and then the error is raised; a statement that
           was executed is run to completion first, so that no active statement outlives the failed call;
 "crash":  os._exit(137) before / after performing the call (only meaningful in a child process).
-"park":   the calling thread stops for ever right before / after the call (no unwinding, no cleanup code runs) after
-          setting `rec.parked`; used by crash runners that freeze many independent runs at their fault points in one
-          child process and then kill that process with os._exit(137).
+"freeze": the run is abandoned right before / after the call: `Frozen` (a BaseException) is raised and from that moment
+          EVERY later DB-API call through this recorder raises `Frozen` too without reaching SQLite, so none of the caller's
+          cleanup code (rollback, close) touches the connection; the connection object stays referenced by the recorder,
+          exactly as it was, with its transaction open.  Used by crash runners that abandon many independent runs at their
+          fault points in one child process and then kill that process with os._exit(137).
 A connect call that fails "after" closes the raw connection itself first (the driver, not the caller, owns a connection
 that was never handed out).  A close call that fails "before" leaves the connection open by the plan's doing; such a
 connection is flagged `close_refused` so that nobody is blamed for it.
@@ -37,9 +39,13 @@ EXC = {'operational': sqlite3.OperationalError, 'integrity': sqlite3.IntegrityEr
 MARK = 'injected fault'
 
 
+class Frozen(BaseException):
+    """the run was abandoned at its fault point; nothing reaches SQLite through this recorder any more"""
+
+
 class ConnRec(object):
     __slots__ = ('serial', 'obj', 'tid', 'opened', 'closed', 'close_calls', 'used_after_close', 'close_refused',
-                 'never_handed_out')
+                 'never_handed_out', 'tag')
 
     def __init__(self, serial, obj, tid):
         self.serial = serial
@@ -51,6 +57,7 @@ class ConnRec(object):
         self.used_after_close = []    # (index, kind) of calls that arrived after a performed close()
         self.close_refused = False    # the plan made a close() fail before it was performed
         self.never_handed_out = False  # connect failed: the caller never saw this object
+        self.tag = None               # which factory made it (several databases may share one recorder)
 
     def is_open(self):
         """ask SQLite itself (a closed connection refuses every operation)"""
@@ -83,7 +90,7 @@ class Recorder(object):
         self.fired = []               # (plan position, call index)
         self.probe = probe            # optional callable -> JSON-able value stored with each call (e.g. lock state)
         self.on_call = None           # optional callable(entry) invoked before a call is performed (yield points)
-        self.parked = threading.Event()
+        self.dead = False             # set by a "freeze" fault
 
     # ------------------------------------------------------------------ control
     def start(self):
@@ -135,6 +142,8 @@ class Recorder(object):
 
     # ------------------------------------------------------------------ the one entry point of every wrapped call
     def call(self, kind, conn, sql, do, undo=None):
+        if self.dead:
+            raise Frozen()
         with self.mutex:
             crec = self.conn_rec(conn)
             idx = None if self.base is None else len(self.calls) - self.base
@@ -152,8 +161,9 @@ class Recorder(object):
             entry['fault'] = 'before'
             if fault['exc'] == 'crash':
                 os._exit(137)
-            if fault['exc'] == 'park':
-                self._park()
+            if fault['exc'] == 'freeze':
+                self.dead = True
+                raise Frozen()
             if kind == 'close':
                 crec.close_refused = True
             if kind == 'connect':
@@ -182,8 +192,9 @@ class Recorder(object):
             entry['fault'] = 'after'
             if fault['exc'] == 'crash':
                 os._exit(137)
-            if fault['exc'] == 'park':
-                self._park()
+            if fault['exc'] == 'freeze':
+                self.dead = True
+                raise Frozen()
             if kind == 'connect':
                 crec.never_handed_out = True
                 if undo is not None:
@@ -199,10 +210,6 @@ class Recorder(object):
             entry['result'] = 'injected'
             raise EXC[fault['exc']]('%s #%s after %s' % (MARK, idx, kind))
         return res
-
-    def _park(self):
-        self.parked.set()
-        threading.Event().wait()      # for ever: the process is about to be killed
 
     # ------------------------------------------------------------------ reporting
     def brief(self, lo=0, hi=None):
@@ -226,7 +233,7 @@ def _in_tx(conn):
         return False
 
 
-def make_factory(rec, fsync=False):
+def make_factory(rec, fsync=False, tag=None):
     """Connection class (for sqlite3.connect(factory=...)) whose calls go through `rec`.
     fsync=False: every new connection gets PRAGMA synchronous=OFF (not logged, not a fault point).  SQLite then still
     writes its rollback journal before touching the database file, it only stops waiting for the disk; that matters for
@@ -241,6 +248,8 @@ def make_factory(rec, fsync=False):
 
     class FaultConnection(sqlite3.Connection):
         def __init__(self, *args, **kwargs):
+            rec.conn_rec(self).tag = tag
+
             def do():
                 sqlite3.Connection.__init__(self, *args, **kwargs)
                 if not fsync:
